@@ -287,10 +287,42 @@ def read_repo(rel: str) -> str:
         return fh.read()
 
 
+def _mutation_battery(ctx: Ctx) -> None:
+    """Thorough tier: re-run this property's rules on every recorded mutant of the current tree (overlay copies outside /repo and
+    /verif, removed afterwards) and record how many are detected.  This measures the checker, not the repository: results are
+    evidence / INFO only and never turn into a violation."""
+    import concurrent.futures
+    import importlib.util
+    mpath = os.path.join(VERIF, 'selftest', 'mutants', f'{ctx.pid}.json')
+    if not os.path.exists(mpath):
+        return
+    spec = importlib.util.spec_from_file_location('verif_selftest_run', os.path.join(VERIF, 'selftest', 'run.py'))
+    st = importlib.util.module_from_spec(spec)
+    spec.loader.exec_module(st)  # type: ignore[union-attr]
+    muts = json.load(open(mpath))
+    res: Dict[str, int] = {}
+    details = []
+    with concurrent.futures.ThreadPoolExecutor(16) as ex:
+        futs = [(m, ex.submit(st.one_mutant, ctx.pid, m)) for m in muts]
+        for m, f in futs:
+            status, msg = f.result()
+            if status == 'CAUGHT' and m.get('expect') == 'silent':
+                status = 'SILENT-OK'
+            res[status] = res.get(status, 0) + 1
+            if status not in ('CAUGHT', 'SILENT-OK'):
+                details.append(f'{m["name"]}: {status}')
+    ctx.extra_cov['mutation_battery'] = {'mutants': len(muts), 'by_status': res, 'not_detected': details}
+    ctx.unit('mutants_replayed', len(muts))
+    for d in details:
+        ctx.info(f'mutation battery: {d} (checker self-test, not a property violation)')
+
+
 def run_property(pid: str, tier: str, fn: Callable[[Ctx], None]) -> int:
     ctx = Ctx(pid, tier)
     try:
         fn(ctx)
+        if tier == 'thorough' and not OVERLAY:
+            _mutation_battery(ctx)
         return ctx.finish()
     except AnalysisError as e:
         try:
